@@ -31,6 +31,8 @@ pub fn last_restored_count() -> usize {
 
 pub struct Incremental {
     store: Store,
+    /// Global key of this build; recorded with the outputs it emits.
+    key: String,
     /// Files that must go through the full pipeline.
     miss: HashSet<PathBuf>,
     /// Source contents read during miss computation, reused for parsing.
@@ -74,6 +76,12 @@ impl Incremental {
         let key = global_key(metadata, defines)?;
         let store = Store::open(&metadata.project_dot_build_path().join("cache"), &key);
 
+        // The outputs on disk are only as current as the key they were emitted
+        // under. `check` and `build --check` re-key and refill the store after
+        // an option or compiler change without touching the outputs, so a
+        // matching store alone does not make them up to date.
+        let outputs_current = metadata.build_info.output_key.as_deref() == Some(key.as_str());
+
         let mut miss = HashSet::new();
         let mut inputs = HashMap::new();
         let mut hashes = HashMap::new();
@@ -99,7 +107,9 @@ impl Incremental {
             // examples/ files are never emitted, so output staleness does not
             // apply to them.
             let hit = entry.is_some_and(|x| x.hash == hash && x.fragment.is_some())
-                && (!consider_output || path.example || !Self::dst_is_stale(metadata, path))
+                && (!consider_output
+                    || path.example
+                    || (outputs_current && !Self::dst_is_stale(metadata, path)))
                 && !has_selected_test;
             if !hit {
                 miss.insert(path.src.clone());
@@ -138,6 +148,7 @@ impl Incremental {
 
         Some(Incremental {
             store,
+            key,
             miss,
             inputs,
             hashes,
@@ -167,6 +178,11 @@ impl Incremental {
             .and_then(|x| x.modified())
             .unwrap_or(SystemTime::now());
         modified > *generated
+    }
+
+    /// The global key of this build, to be recorded with emitted outputs.
+    pub fn key(&self) -> &str {
+        &self.key
     }
 
     /// Takes the already-read source contents for a file.
